@@ -10,7 +10,7 @@ PKG = "vcr/pe"
 HARNESS = ["vcr/pe/zz_verif_c12_test.go"]
 # consumer legs: the real callers of vcr/pe on the verifier side (auth/api/iam) and on the wallet side (vcr/holder)
 IAM_PKG, IAM_HARNESS = "auth/api/iam", ["auth/api/iam/zz_verif_c12_iam_test.go"]
-HOLDER_PKG, HOLDER_HARNESS = "vcr/holder", ["vcr/holder/zz_verif_c12_holder_test.go"]
+HOLDER_PKG, HOLDER_HARNESS = "vcr/holder", ["vcr/holder/zz_verif_c12_holder_test.go", "vcr/holder/zz_verif_c12_formats_test.go"]
 DISC_PKG, DISC_HARNESS = "discovery", ["discovery/zz_verif_c12_discovery_test.go"]
 POLICY_PKG, POLICY_HARNESS = "policy", ["policy/zz_verif_c12_policy_test.go"]
 IAMC_PKG, IAMC_HARNESS = "auth/client/iam", ["auth/client/iam/zz_verif_c12_iamclient_test.go"]
@@ -23,7 +23,9 @@ REQUIRED_DEEP = ["fact_regex_compiled_as_ecmascript", "ecma_anchored_accepts_iff
                  "input_descriptor_values_source", "access_token_fields_faithful", "duplicate_field_refused",
                  "fact_vp_format_preference", "fact_vp_format_default", "choose_vp_format_range", "choose_vp_format_supported",
                  "fact_fulfill_source", "fact_next_source", "fact_is_fulfilled_source", "fact_credential_map_source", "fact_new_pex_consumer_source",
-                 "fact_resolve_input_descriptor_values_source"]
+                 "fact_resolve_input_descriptor_values_source",
+                 "values_both_mem", "match_params_sound", "match_formats_sound", "formats_match_sound", "presenter_format_shared",
+                 "fact_presenter_build_submission_source", "fact_formats_match_source", "fact_formats_normalize_source", "fact_formats_constructors_source"]
 REQUIRED = ["pe_total_match_raw", "pe_total_build_raw", "pe_total_credentials_required_raw", "pe_total_resolve_fields_raw",
             "old_code_panics_on_nil_entry", "fact_nil_entries_checked", "pe_total_match", "pe_total_build", "pe_total_validate", "pe_total_resolve_fields",
             "match_sound", "filter_sound_and_complete",
@@ -365,7 +367,7 @@ def sr_pick_without_max(sr):
 def run(ctx):
     del ECMA_TABLE_DISAGREE[:]
     facts = ctx.facts()
-    thms = ctx.build_and_audit(["NutsProofs.Props.C12", "NutsProofs.Props.C12Ecma", "NutsProofs.Props.C12Consumer"])
+    thms = ctx.build_and_audit(["NutsProofs.Props.C12", "NutsProofs.Props.C12Ecma", "NutsProofs.Props.C12Consumer", "NutsProofs.Props.C12Formats"])
     for r in REQUIRED + REQUIRED_DEEP:
         if not any(t.endswith("Props." + r) for t in thms):
             ctx.oblige("thm-present:" + r, False, "theorem missing or its module does not build")
@@ -921,6 +923,63 @@ def run(ctx):
                 creport("C12:consumer-session:duplicate-field-spurious", f"no named field, but two definitions give {f.get('v2', '')[:60]}", k)
         ctx.oblige("correspondence:consumer-model=impl", c_bad == 0, f"{c_bad} of {len(c_want)} PEXConsumer sessions differ from the model")
         ctx.cov["consumer_sessions_vs_model"] = len(c_want)
+
+    # ---- presenter format negotiation (credential.Formats.Match x3 + ChooseVPFormat, and the real buildSubmission) vs the
+    #      Lean model (NutsModel/C12/Formats.lean) and an independent set-based reference
+    def ref_vp_format(defaults, verifier, pdf):
+        al = {"alg_values_supported": "alg", "proof_type_values_supported": "proof_type"}
+        def openid(m):
+            return {f_: {al.get(p_, p_): set(v_) for p_, v_ in ps.items()} for f_, ps in (m or {}).items()}
+        cur, ver, step = openid(defaults), openid(verifier), {}
+        for f_, ps in cur.items():
+            if f_ in ver:
+                common = {p_: ps[p_] & ver[f_][p_] for p_ in ps if p_ in ver[f_] and ps[p_] & ver[f_][p_]}
+                if common:
+                    step[f_] = common
+        if pdf is not None:
+            fa, step2 = {"jwt_vp_json": "jwt_vp", "jwt_vc_json": "jwt_vc"}, {}
+            for f_, ps in step.items():
+                o_ = {p_: set(v_) for p_, v_ in pdf.get(fa.get(f_, f_), {}).items()} if fa.get(f_, f_) in pdf else None
+                if o_ is not None:
+                    common = {p_: ps[p_] & o_[p_] for p_ in ps if p_ in o_ and ps[p_] & o_[p_]}
+                    if common:
+                        step2[f_] = common
+            step = step2
+        return "jwt_vp" if set(step) & {"jwt_vp", "jwt_vp_json"} else "ldp_vp" if "ldp_vp" in step else ""
+
+    hb = ctx.go_test_binary(HOLDER_PKG, HOLDER_HARNESS, "c12holder")
+    if hb is not None:
+        fenv = {"VERIF_REPLAY": os.path.abspath(ctx.replay)} if ctx.replay else {}
+        rcf, logf, _ = ctx.run_harness(hb, "TestVerifC12Formats", fenv, outdir=out, timeout=900, cwd=os.path.join(vlib.REPO, HOLDER_PKG))
+        ctx.oblige("harness-runs:c12holder:formats", rcf == 0, logf[-800:])
+        if rcf == 0:
+            f_ops = [l for l in ctx.read_lines(os.path.join(out, "formats.ops.jsonl")) if l]
+            f_impl = [l for l in ctx.read_lines(os.path.join(out, "formats.impl.out")) if l]
+            okf, errf = ctx.model("C12", os.path.join(out, "formats.ops.jsonl"), os.path.join(out, "formats.model.out"))
+            ctx.oblige("model-driver-runs:formats", okf, errf[-400:])
+            f_model = [l for l in ctx.read_lines(os.path.join(out, "formats.model.out")) if l]
+            f_bad = 0
+            for i_, (raw, il) in enumerate(zip(f_ops, f_impl)):
+                iline, _, real = il.partition("\treal=")
+                mline = f_model[i_] if i_ < len(f_model) else None
+                o = json.loads(raw)
+                chosen = iline.split(" ")[1][len("chosen="):] if iline.startswith("formats chosen=") else "?"
+                counts["formats:" + (chosen or "none")] += 1
+                sig = None
+                if iline != mline:
+                    f_bad += 1
+                    sig, what = "C12:formats:model-differs", f"format negotiation differs from the Lean model: impl {iline[:200]} / model {str(mline)[:200]}"
+                elif chosen != ref_vp_format(o["defaults"], o.get("verifier"), o.get("pdFormat")):
+                    sig, what = "C12:formats:chosen-format-not-shared", (f"presenter chose '{chosen}' but node defaults, verifier metadata and definition format share "
+                                                                       f"'{ref_vp_format(o['defaults'], o.get('verifier'), o.get('pdFormat'))}'")
+                elif (chosen == "") != (real == "nofmt") or real == "panic":
+                    sig, what = "C12:formats:buildSubmission-disagrees", f"real buildSubmission outcome {real} with negotiated format '{chosen}'"
+                if sig and sig not in seen_sig:
+                    seen_sig[sig] = ctx.violation(sig, what + f" (formats op {i_})", sig.split(":", 1)[1].replace(":", "-") + ".jsonl", raw + "\n")
+                if sig and seen_sig.get(sig):
+                    oracle_bad += 1
+            ctx.oblige("correspondence:formats-model=impl", f_bad == 0 and len(f_model) == len(f_impl), f"{f_bad} of {len(f_impl)} format negotiations differ from the model")
+            ctx.cov["format_negotiations_vs_model"] = len(f_impl)
 
     # wallet side: presenter.buildSubmission, then what the verifier does with its output
     for r in consumer_leg(HOLDER_PKG, HOLDER_HARNESS, "c12holder", "TestVerifC12Holder", "holder.out", 4000):
